@@ -37,6 +37,9 @@
     followed, in the same loop callback, by `async_persist()` = a new job submitted to the
     executor.  `spawn` is a save job that is not preceded by a change (`add_accessory`,
     `config_changed`, `async_start`).
+  * Granularity: one step per I/O call of the save; the state read at `snapshot` is a single step
+    (a pairing change landing between the three dict reads of `encoder.persist` is not modelled),
+    `os.replace` is atomic and a failing call has no effect (POSIX contract, trusted).
 -/
 namespace Hap.Persist
 
